@@ -6,7 +6,7 @@ package farm
 // End block: every pool queued for this height is taken off the queue and refunded (errors of a refund are logged, the
 // block never aborts), entries for other heights stay.
 //@ func EndBlocker(c, k)
-//@   property C13, C06
+//@   property C13, C06, C05
 //@   requires height >= 0
 //@   requires keeper.rulesWF && keeper.rulesOK && keeper.poolsWF && keeper.activeInv && keeper.activeWF
 //@   modifies active, ruleF, pools, bal
